@@ -98,6 +98,7 @@ def plan(tier):
     units.append(('empty', tier))
     units.append(('pairs', tier))
     units.append(('module', tier))
+    units.append(('linebreaks', tier))
     return units
 
 
@@ -274,6 +275,26 @@ def run(unit):
                         if st == 'ok':
                             r.violation('file with two malformed members is accepted', {'text': text, 'pair': True}, f'«{text}» parsed into {len(spec.properties)} properties', size=len(text))
         r.sample({'malformed_pair': openers[0] + ' / ' + closers[0]})
+    elif what == 'linebreaks':
+        # characters that some line-splitting routines treat as line breaks (str.splitlines does), white space
+        # look-alikes and a byte-order mark: inside string literals / annotations and stray between tokens; each
+        # member's own parse decides what the file must do
+        chars = ['\r', '\x0b', '\x0c', '\x1c', '\x1d', '\x1e', '\x85', '\u2028', '\u2029', '\t', '\xa0', '\ufeff', '\x00', '\x1f', '\u200b', '\r\n']
+        for c in chars:
+            members = [
+                f'# title: "a{c}b" globally: no a', f'globally: no b {{s = "x{c}y"}}', f'# description: "{c}" until e: b requires c', f'# id: k{c}\nglobally: no a',
+                f'globally:{c}no a', f'globally: no a{c}', f'{c}globally: no a', f'globally: no a {{x >{c}1}}', f'# id: p{c}# title: "t" globally: some b',
+            ]
+            for m in members:
+                for others in ([], [POOL[0]], [POOL[0], annotate(POOL[2], ('id',), 7)[0]]):
+                    for pos in range(len(others) + 1):
+                        parts = others[:pos] + [m] + others[pos:]
+                        for sep in ('\n', ' ', '\n\n'):
+                            r.count('states')
+                            metas = [dict(single(p)[1][1]) if single(p)[0] == 'ok' else {} for p in parts]
+                            for kind, detail in check_file(parts, metas, sep, r):
+                                r.violation(kind + ' [unusual white space or line-break character]', {'parts': parts, 'sep': sep, 'linebreaks': True}, detail.replace(c, repr(c)), size=len(parts) * 100 + len(m))
+        r.sample({'linebreak_member': repr('# title: "a\x0bb" globally: no a')})
     elif what == 'module':
         # the module-level helpers: a result (and its metadata) belongs to the caller; parsing the same text
         # again must give what the text says
@@ -334,7 +355,7 @@ def replay(w):
 def describe(tier):
     b = bounds(tier)
     return {
-        'rule': f"all sequences of 1..{b['seq_len']} properties from a 14-text pool (and {b['seq_len'] + 1}..{b['seq_len_small_pool']} from a 4-text sub-pool) x every assignment of one of the 16 annotation arrangements (subsets and orders of id/title/description) to <= {b['annotated_members']} members, plus all members fully annotated, x 3 separators; one-invalid-member variants (16 kinds x every index in files of 1..3) and dangling/empty/whitespace files; after every rejected file a valid annotated file is parsed with the same parser object (history of length 2); 4 x 4 pairs of malformed members that could repair each other (unterminated string / stray quote) x 3 fillers x 3 separators; the module-level parse_specification / parse_property called twice on the same text with the first result's metadata edited in between. Each file is compared index by index (typed lift and metadata) with the property parser on the parts. A state = one file text; a transition = one specification parse.",
+        'rule': f"all sequences of 1..{b['seq_len']} properties from a 14-text pool (and {b['seq_len'] + 1}..{b['seq_len_small_pool']} from a 4-text sub-pool) x every assignment of one of the 16 annotation arrangements (subsets and orders of id/title/description) to <= {b['annotated_members']} members, plus all members fully annotated, x 3 separators; one-invalid-member variants (16 kinds x every index in files of 1..3) and dangling/empty/whitespace files; after every rejected file a valid annotated file is parsed with the same parser object (history of length 2); 4 x 4 pairs of malformed members that could repair each other (unterminated string / stray quote) x 3 fillers x 3 separators; the module-level parse_specification / parse_property called twice on the same text with the first result's metadata edited in between. Each file is compared index by index (typed lift and metadata) with the property parser on the parts. Plus 16 unusual white-space / line-break characters (CR, VT, FF, FS, GS, RS, NEL, U+2028, U+2029, TAB, NBSP, BOM, NUL, US, ZWSP, CRLF) x 9 member shapes (inside titles, descriptions, string literals, after an annotation, between tokens, leading, trailing) x 0-2 companions x every position x 3 separators. A state = one file text; a transition = one specification parse.",
         'bounds': b,
         'exhaustive': True,
         'assumptions': ['the property parser on each part alone is the reference (differential oracle); its own correctness is C01'],
